@@ -323,6 +323,9 @@ def run(R, env):
         c = Ctx(b)
         for bi, t, a in call_sites(c, lambda nm: nm == "cw_storage_plus::UniqueIndex::new"):
             res = closure_result(prog, a[0], params={2: ("rec",)}) if a[0][0] == "closure" else None
+            if a[0][0] == "fn" and prog.body(a[0][1]) is not None:
+                # a named function instead of a closure
+                res = Terms(prog.body(a[0][1]), params={1: ("rec",)}).return_term()
             good = res is not None and res[0] == "tuple" and len(res[1]) == 2 and res[1][0] == ("field", ("rec",), "user") and res[1][1] == ("field", ("rec",), "batch_id")
             R.ob("C17.R3", "index-function-is-(user,batch_id)", good, "index function yields %s" % fmt(res or ("none",))[:100], loc=b.loc(bi), fn=b.key)
 
